@@ -799,10 +799,14 @@ pub fn implies(model: &mut Model, b1: VarId, b2: VarId) {
 /// ```
 pub fn element(model: &mut Model, array: &[VarId], index: VarId) -> VarId {
     // the value is one of the array entries: its bounds are the hull of their bounds
-    use crate::variables::views::ViewRaw;
     let mut bounds: Option<(Val, Val)> = None;
     for &v in array {
-        let (lo, hi) = (v.min_raw(&model.vars), v.max_raw(&model.vars));
+        let Some((lo, hi)) = model.operand_bounds(v) else {
+            // an entry with an empty domain: validation reports it; nothing to take the hull of
+            let result = model.empty_result_var();
+            model.element(array, index, result);
+            return result;
+        };
         bounds = Some(match bounds {
             None => (lo, hi),
             Some((l, h)) => (if lo < l { lo } else { l }, if hi > h { hi } else { h }),
@@ -945,11 +949,13 @@ pub fn cumulative(
 /// let float_var = int2float(&mut model, int_var);
 /// ```
 pub fn int2float(model: &mut Model, int_var: VarId) -> VarId {
-    use crate::variables::views::ViewRaw;
-    
-    // Get bounds of integer variable
-    let int_min = int_var.min_raw(&model.vars);
-    let int_max = int_var.max_raw(&model.vars);
+    // Get bounds of integer variable (an empty integer domain has none: validation reports it)
+    let Some((int_min, int_max)) = model.operand_bounds(int_var) else {
+        let float_var = model.float(0.0, 0.0);
+        let int_as_float = model.mul(int_var, Val::ValF(1.0));
+        model.props.equals(float_var, int_as_float);
+        return float_var;
+    };
     
     // Convert to float bounds
     let float_min = match int_min {
